@@ -112,6 +112,9 @@ def check(ctx, replay=None):
             # make sure pointer-sized integers appear in every position
             methods.append({"name": "sizes", "self": "ref", "params": [("a", ("prim", "isize")), ("b", ("prim", "usize")), ("c", ("slice", "isize", "ref"))],
                             "ret": ("prim", "isize"), "write": False, "rets": [0, 1, 2]})
+            # every write-out return shape, with parameters before the writer and on every kind of receiver
+            for wi, (selfk, ps) in enumerate(((None, []), ("ref", [("a", ("prim", "u8"))]), ("mut", [("a", ("prim", "i64")), ("b", ("prim", "f32"))]))):
+                methods.append({"name": f"woptunit{wi}", "self": selfk, "params": ps, "ret": ("optunit",), "write": True, "rets": [None, True, None]})
             src = abigen.rust_source(mod, methods)
             path = os.path.join(d, f"{backend}{bi}.rs"); open(path, "w").write(src)
             out = os.path.join(d, f"out_{backend}")
